@@ -9,6 +9,7 @@ import (
 	"github.com/siderolabs/gen/xerrors"
 	"os"
 	"sort"
+	"strconv"
 	"strings"
 	"sync"
 	"testing"
@@ -107,42 +108,48 @@ type recCore struct {
 	rs *recState
 }
 
+// The write and its log entry are one critical section: the log is the commit order, also when the environment, the
+// controllers' workers and a second controller write concurrently (a log appended after the fact can show a destroy
+// after the re-creation that followed it).
 func (c *recCore) Create(ctx context.Context, r resource.Resource, opts ...state.CreateOption) error {
+	c.rs.mu.Lock()
+	defer c.rs.mu.Unlock()
+
 	if err := c.CoreState.Create(ctx, r, opts...); err != nil {
 		return err
 	}
 
-	c.rs.mu.Lock()
 	c.rs.log = append(c.rs.log, wEntry{Op: "create", Typ: r.Metadata().Type(), ID: r.Metadata().ID(), Actor: actorOf(ctx), After: r.DeepCopy()})
-	c.rs.mu.Unlock()
 
 	return nil
 }
 
 func (c *recCore) Update(ctx context.Context, r resource.Resource, opts ...state.UpdateOption) error {
+	c.rs.mu.Lock()
+	defer c.rs.mu.Unlock()
+
 	before, _ := c.CoreState.Get(ctx, r.Metadata()) //nolint:errcheck
 
 	if err := c.CoreState.Update(ctx, r, opts...); err != nil {
 		return err
 	}
 
-	c.rs.mu.Lock()
 	c.rs.log = append(c.rs.log, wEntry{Op: "update", Typ: r.Metadata().Type(), ID: r.Metadata().ID(), Actor: actorOf(ctx), After: r.DeepCopy(), Before: before})
-	c.rs.mu.Unlock()
 
 	return nil
 }
 
 func (c *recCore) Destroy(ctx context.Context, p resource.Pointer, opts ...state.DestroyOption) error {
+	c.rs.mu.Lock()
+	defer c.rs.mu.Unlock()
+
 	before, _ := c.CoreState.Get(ctx, p) //nolint:errcheck
 
 	if err := c.CoreState.Destroy(ctx, p, opts...); err != nil {
 		return err
 	}
 
-	c.rs.mu.Lock()
 	c.rs.log = append(c.rs.log, wEntry{Op: "destroy", Typ: p.Type(), ID: p.ID(), Actor: actorOf(ctx), Before: before})
-	c.rs.mu.Unlock()
 
 	return nil
 }
@@ -662,6 +669,19 @@ func checkOrdering(log []wEntry, sc gScenario, name string) (problems []string) 
 			}
 		}
 
+		if len(problems) > 0 && os.Getenv("VERIF_DUMPLOG") != "" {
+			for j, x := range log[:i+1] {
+				fins, ph, ow := "", "", ""
+				if x.After != nil {
+					fins, ph, ow = fmt.Sprint(*x.After.Metadata().Finalizers()), x.After.Metadata().Phase().String(), x.After.Metadata().Owner()
+				}
+
+				fmt.Fprintf(os.Stderr, "LOG %d %s %s/%s by %s -> phase=%s fins=%s owner=%s\n", j, x.Op, x.Typ, x.ID, x.Actor, ph, fins, ow)
+			}
+
+			return problems
+		}
+
 		if len(problems) > 3 {
 			break
 		}
@@ -806,6 +826,13 @@ func runGenericProperty(t *testing.T, prop string, rule string, extra func(rep *
 		}
 
 		scs = append(scs, rf.Case)
+
+		// a schedule-dependent violation may need several attempts to come back
+		if n, _ := strconv.Atoi(os.Getenv("VERIF_REPEAT")); n > 1 {
+			for range n - 1 {
+				scs = append(scs, rf.Case)
+			}
+		}
 	} else {
 		r := newRng(seed(), "C06C07")
 
